@@ -1,5 +1,7 @@
-import Driver.Util
-/-! `drv_monitor`: not built yet -/
+import Driver.MonitorDrv
+open Driver
+
 def main : IO UInt32 := do
-  IO.eprintln "drv_monitor: engine not implemented"
-  return 2
+  let lines ← readLines (← IO.getStdin) #[]
+  MonitorDrv.main lines
+  return 0
